@@ -183,7 +183,8 @@ type Step struct {
 	Max     int         `json:"max,omitempty"`
 	Partial int         `json:"partial,omitempty"`
 	RFaults []readFault `json:"rfaults,omitempty"`
-	N       int         `json:"n,omitempty"` // commit: number of statements
+	N       int         `json:"n,omitempty"`     // commit: number of statements
+	Level   int         `json:"level,omitempty"` // compact: destination level (default 1)
 }
 
 type Case struct {
@@ -385,6 +386,58 @@ func (e *env) commit(n int) error {
 }
 
 func (e *env) remoteL0() ([]int, error) { return listLevel(e.raw, 0) }
+
+// listRanges lists (min,max) of every file of a level.
+func listRanges(c *file.ReplicaClient, level int) ([][2]int, error) {
+	itr, err := c.LTXFiles(context.Background(), level, 0, false)
+	if err != nil {
+		return nil, err
+	}
+	defer itr.Close()
+	var a [][2]int
+	for itr.Next() {
+		a = append(a, [2]int{int(itr.Item().MinTXID), int(itr.Item().MaxTXID)})
+	}
+	return a, itr.Err()
+}
+
+// namesMatchHeaders: every replica file above level 0 must contain exactly the TXID range its name
+// (what listings, caches and the planner go by) announces, and each level must be contiguous.
+func (e *env) namesMatchHeaders() string {
+	for lvl := 1; lvl <= litestream.SnapshotLevel; lvl++ {
+		itr, err := e.raw.LTXFiles(context.Background(), lvl, 0, false)
+		if err != nil {
+			return err.Error()
+		}
+		var infos []*ltx.FileInfo
+		for itr.Next() {
+			i := *itr.Item()
+			infos = append(infos, &i)
+		}
+		itr.Close()
+		prevMax := ltx.TXID(0)
+		for k, info := range infos {
+			if lvl < litestream.SnapshotLevel && k > 0 && info.MinTXID != prevMax+1 {
+				return fmt.Sprintf("level %d is not contiguous: file %d-%d follows a file ending at %d", lvl, info.MinTXID, info.MaxTXID, prevMax)
+			}
+			prevMax = info.MaxTXID
+			rc, err := e.raw.OpenLTXFile(context.Background(), info.Level, info.MinTXID, info.MaxTXID, 0, 0)
+			if err != nil {
+				return err.Error()
+			}
+			dec := ltx.NewDecoder(rc)
+			herr := dec.DecodeHeader()
+			rc.Close()
+			if herr != nil {
+				return fmt.Sprintf("file L%d %d-%d: unreadable header: %v", lvl, info.MinTXID, info.MaxTXID, herr)
+			}
+			if h := dec.Header(); h.MinTXID != info.MinTXID || h.MaxTXID != info.MaxTXID {
+				return fmt.Sprintf("file L%d is named %d-%d but its header says %d-%d (content does not cover the announced range)", lvl, info.MinTXID, info.MaxTXID, h.MinTXID, h.MaxTXID)
+			}
+		}
+	}
+	return ""
+}
 
 func listLevel(c *file.ReplicaClient, level int) ([]int, error) {
 	itr, err := c.LTXFiles(context.Background(), level, 0, false)
@@ -705,21 +758,24 @@ func runCase(drv *hx.Driver, c Case, scratch string, res *counter) (viol string,
 				}
 			}
 		case "compact":
-			l1, _ := listLevel(e.raw, 1)
-			l0, _ := e.remoteL0()
-			maxL1 := 0
-			if len(l1) > 0 {
-				maxL1 = l1[len(l1)-1]
+			// standalone compactor: no LocalFileOpener, every source file is opened on the REPLICA
+			dst := max(1, st.Level)
+			dstFiles, _ := listRanges(e.raw, dst)
+			srcFiles, _ := listRanges(e.raw, dst-1)
+			maxDst := 0
+			for _, f := range dstFiles {
+				maxDst = max(maxDst, f[1])
 			}
 			nsrc := 0
-			for _, t := range l0 {
-				if t > maxL1 {
+			for _, f := range srcFiles {
+				if f[0] >= maxDst+1 { // the client's seek filter: MinTXID >= seek
 					nsrc++
 				}
 			}
+			l1 := dstFiles
 			e.fc.arm(st.Faults, st.Partial, st.RFaults)
 			comp := litestream.NewCompactor(e.fc, quiet)
-			_, cerr := comp.Compact(ctx, 1)
+			_, cerr := comp.Compact(ctx, dst)
 			// whether every source stream was delivered is decided by the environment: a reader gives up
 			// after more than 3 retries really spent on its file — stream faults that fired (faults beyond
 			// the file's end never fire) plus reopen attempts that failed (an armed call fault landing on a
@@ -740,7 +796,7 @@ func runCase(drv *hx.Driver, c Case, scratch string, res *counter) (viol string,
 			} else if cerr != nil {
 				kind = "err"
 			}
-			l1b, _ := listLevel(e.raw, 1)
+			l1b, _ := listRanges(e.raw, dst)
 			written := 0
 			if len(l1b) > len(l1) {
 				written = 1
@@ -753,7 +809,10 @@ func runCase(drv *hx.Driver, c Case, scratch string, res *counter) (viol string,
 			if i := strings.Index(model, " calls="); i >= 0 {
 				model = model[:i]
 			}
-			res.Count("compact->" + kind)
+			res.Count(fmt.Sprintf("compact(L%d,nsrc=%d)->%s", dst, min(nsrc, 3), kind))
+			if msg := e.namesMatchHeaders(); msg != "" && oracle == "" {
+				oracle = "after compact: " + msg
+			}
 			if hx.Differs(impl, model) && disagree == "" {
 				disagree = fmt.Sprintf("step %d compact: impl %q model %q [%s] err=%v", si, impl, model, line, cerr)
 			}
@@ -850,6 +909,52 @@ func genCompactCase(r *hx.Rand) Case {
 	return c
 }
 
+// genRemoteCompactCase: directed — compactions whose sources are read from the replica with several
+// source files (level 2 from several L1 files; level 1 from several L0 files), a fail-before OpenLTXFile
+// on one source position (first / middle / last), one-shot or persistent, then a fault-free retry and
+// further writes.
+func genRemoteCompactCase(r *hx.Rand) Case {
+	c := Case{Seed: r.Uint64()}
+	clean := func(n int) {
+		for i := 0; i < n; i++ {
+			c.Steps = append(c.Steps, Step{Op: "commit", N: 1 + r.Intn(2)}, Step{Op: "rsync"})
+		}
+	}
+	openFault := func(nsrc int) string {
+		p := []int{0, nsrc / 2, nsrc - 1}[r.Intn(3)]
+		f := "oo" + strings.Repeat("o", p)
+		if r.Chance(80) {
+			return f + "b"
+		}
+		return f + "a"
+	}
+	dst := 1
+	nsrc := 2 + r.Intn(3)
+	if r.Bool() {
+		// several L1 files first, then compact them into level 2
+		dst = 2
+		for i := 0; i < nsrc; i++ {
+			clean(1 + r.Intn(2))
+			c.Steps = append(c.Steps, Step{Op: "compact", Level: 1})
+		}
+	} else {
+		clean(nsrc)
+	}
+	reps := 1
+	if r.Chance(40) {
+		reps = 2 + r.Intn(2) // persistent
+	}
+	f := openFault(nsrc)
+	for i := 0; i < reps; i++ {
+		c.Steps = append(c.Steps, Step{Op: "compact", Level: dst, Faults: f})
+	}
+	c.Steps = append(c.Steps, Step{Op: "compact", Level: dst}) // fault-free retry
+	clean(1)
+	c.Steps = append(c.Steps, Step{Op: "saw"}, Step{Op: "compact", Level: 1}, Step{Op: "compact", Level: 2, Faults: genFaults(r, r.Intn(5))},
+		Step{Op: "commit", N: 1}, Step{Op: "saw"})
+	return c
+}
+
 var initFaults = []string{"b", "b", "a", "ob", "oa", "", "bb", "bob"}
 
 // genRecoveryCase: directed — replicate, then restart / lose the local level-0 directory / lose the
@@ -884,6 +989,9 @@ func genCase(r *hx.Rand) Case {
 	}
 	if r.Chance(35) {
 		return genRecoveryCase(r)
+	}
+	if r.Chance(25) {
+		return genRemoteCompactCase(r)
 	}
 	c := Case{Seed: r.Uint64()}
 	n := 6 + r.Intn(10)
@@ -952,6 +1060,10 @@ type Payload struct {
 
 func sigOf(v string) string {
 	switch {
+	case strings.Contains(v, "is named"):
+		return "C05/name-header-mismatch"
+	case strings.Contains(v, "level ") && strings.Contains(v, "is not contiguous"):
+		return "C05/level-gap"
 	case strings.Contains(v, "not contiguous"):
 		return "C05/l0-gap"
 	case strings.Contains(v, "returned nil but"):
